@@ -180,18 +180,34 @@ func (w *World) push(h int, prefix []int32) {
 	w.qcond.Signal()
 }
 
-// pop blocks until a task is available or all workers are idle.
-func (w *World) pop() (task, bool) {
+// pop blocks until a task is available or all workers are idle. A worker
+// prefers tasks of the harness it is already working on (prefer >= 0): a
+// machine changes harness only when that harness has no pending path, and it
+// then starts a fresh solver process — paths of different harnesses never
+// share solver state.
+func (w *World) pop(prefer int) (task, bool) {
 	w.qmu.Lock()
 	defer w.qmu.Unlock()
 	for {
 		if w.stopped {
 			return task{}, false
 		}
-		for n := len(w.queue); n > 0; n = len(w.queue) {
-			// depth-first: most recent first
-			t := w.queue[n-1]
+		// drop dead tasks from the top
+		for n := len(w.queue); n > 0 && w.dead[w.queue[n-1].h]; n = len(w.queue) {
 			w.queue = w.queue[:n-1]
+		}
+		if n := len(w.queue); n > 0 {
+			pick := n - 1 // depth-first: most recent first
+			if prefer >= 0 && w.queue[pick].h != prefer {
+				for i := n - 1; i >= 0; i-- {
+					if w.queue[i].h == prefer && !w.dead[prefer] {
+						pick = i
+						break
+					}
+				}
+			}
+			t := w.queue[pick]
+			w.queue = append(w.queue[:pick], w.queue[pick+1:]...)
 			if w.dead[t.h] {
 				continue
 			}
